@@ -182,6 +182,8 @@ class GraphSim:
         self.allow_insert = allow_insert
         self.use_meta = use_meta
         self.max_nodes = max_nodes
+        # some runs pile links onto few ports (a port with ten or more links, many parallel links)
+        self.hot_bias = ctx.ch.coin(1, 6, "hot-port-bias")
         self.cat = catalogue()
         self.graphs: list[G] = [adopt("A", adopt_hugr) if adopt_hugr is not None else self._new_graph("A", ch)]
         n_aux = ch.draw(3, "n-aux") if n_aux is None else n_aux
@@ -407,6 +409,14 @@ class GraphSim:
                     so = ch.draw(ns, "so-redraw")
                 if do == -1:
                     do = ch.draw(nd, "do-redraw")
+        if self.hot_bias and g.m.links and not self.in_range:
+            val = [x for x in g.m.links if x[1] >= 0 and x[3] >= 0]
+            if val and so >= 0 and ch.coin(1, 2, "hot-src"):
+                s, so = ch.pick(val, "hot-src-link")[:2]
+            if val and do >= 0 and ch.coin(1, 3, "hot-dst"):
+                d, do = ch.pick(val, "hot-dst-link")[2:]
+        if sum(1 for x in g.m.links if x[0] == s and x[1] == so) >= 8 or sum(1 for x in g.m.links if x[2] == d and x[3] == do) >= 8:
+            self.ctx.probe("port_with_9_links_or_more")
         if g.m.linked_from_out(s, so):
             self.ctx.probe("fan_out")
         if g.m.linked_from_in(d, do):
